@@ -132,7 +132,7 @@ def check(case, ctx):
         tsp["values"] = np.zeros(tuple(len(l) for l in tsp["labels"]))
         t = gen.build(tsp, meta=False)
         label = "a.interp_like(template dims=%r labels=%s%s) a: dims=%r labels=%s" % (tuple(tsp["dims"]), codec.short(tsp["labels"], 100), kw or "", m.dims, codec.short(m.labels, 100))
-        res, exc = ctx.call(label, lambda: a.interp_like(t, **kw), operands=(a, t), meta='carry')
+        res, exc = ctx.call(label, lambda: a.interp_like(t, **kw), operands=(a, t), meta='carry', meta_owner=ID)
         exp = m
         for dd in m.dims:
             if dd in tsp["dims"]:
@@ -147,7 +147,7 @@ def check(case, ctx):
     exp = np_interp_axis(m, k, new, left, right)
     if case["variant"] == 'array':
         label = "a.interp_axis(%s as %s, axis=%r%s) on %s%s labels[%r]=%s" % (codec.short(new, 80), case["form"], axis, kw or "", m.values.dtype, m.shape, d, codec.short(lab, 60))
-        res, exc = ctx.call(label, lambda: a.interp_axis(arg, axis=axis, **kw), operands=(a,), meta='carry')
+        res, exc = ctx.call(label, lambda: a.interp_axis(arg, axis=axis, **kw), operands=(a,), meta='carry', meta_owner=ID)
         if common.expect(ctx, ID, "interp", label, res, exc, exp=exp, **tol):
             # exact at the nodes
             g = model.observe(res)
